@@ -111,7 +111,7 @@ func (w *srvWorld) probeC03() {
 
 // C06: concurrency bound and work conservation.
 func scenarioC06(r *Run) {
-	w := newSrvWorld(r, srvCfg{Prop: "C06", MaxMsgs: 5, MaxBatch: 6, RPCInfo: true, Cancels: 2, Pushes: 2, Stops: 1, EarlyCloseP: 0.15, AnswerAll: true, HoldP: 0.6, NoteP: 0.25, KMax: 4, BigK: true})
+	w := newSrvWorld(r, srvCfg{Prop: "C06", MaxMsgs: 5, MaxBatch: 6, RPCInfo: true, Cancels: 2, Pushes: 2, Stops: 1, EarlyCloseP: 0.15, AnswerAll: true, HoldP: 0.6, NoteP: 0.25, KMax: 4, BigK: true, BaseCtx: true})
 	if r.Gen.Chance("earlyclose", 0.15) {
 		// the peer goes away while handlers are held and requests are queued: the
 		// limit holds for what the server still runs after that
@@ -138,7 +138,15 @@ func scenarioC06(r *Run) {
 				m.Script.CancelID = "waiting"
 				id := m.ID
 				r.Ev("cancel.waiter", m.Tag, 0, 0, id)
-				r.Sim.Spawn(fmt.Sprintf("x-cw%d", len(waiter)), func() { w.srv.CancelRequest(id) })
+				if w.baseCancel != nil && w.baseCancelSeq < 0 && r.Gen.Chance("cancelbybasectx", 0.5) {
+					// the waiter's context ends because the base context of the
+					// server does (everything else in flight is cancelled with it)
+					r.Probe("base-context-ended-with-a-request-waiting-for-a-slot")
+					w.baseCancelSeq = w.seq()
+					r.Sim.Spawn(fmt.Sprintf("x-cw%d", len(waiter)), func() { w.baseCancel() })
+				} else {
+					r.Sim.Spawn(fmt.Sprintf("x-cw%d", len(waiter)), func() { w.srv.CancelRequest(id) })
+				}
 				// let the cancellation take effect before anything is released
 				r.RunQ()
 			}
@@ -167,7 +175,7 @@ func scenarioC06(r *Run) {
 			}
 			continue // the connection ended first: nothing to judge
 		}
-		says := map[int]bool{-32700: true, -32600: true, -32601: true, -32602: true, -32603: true, -32098: true, 0: true}
+		says := saysSomethingElse
 		if !ref.obj.HasErr || says[ref.obj.Code] {
 			// "a cancellation error": an error object whose code does not say
 			// something else - parse error, invalid request, method not found,
@@ -217,7 +225,7 @@ func (w *srvWorld) provenWaiter() *member {
 func scenarioC07(r *Run) {
 	w := newSrvWorld(r, srvCfg{Prop: "C07", MaxMsgs: 6, MaxBatch: 3, IDPool: 7, Invalid: true, Unknown: true, RPCInfo: true, Cancels: 3, HoldP: 0.4, NoteP: 0.15, KMax: 4, BaseCtx: true})
 	w.start()
-	if !w.drive(nil) {
+	if !w.drive(w.checkC07Prompt) {
 		return
 	}
 	w.stampSendEnds()
@@ -411,3 +419,7 @@ func (rp *restartPush) check(w *srvWorld) {
 		r.Fail("callback-never-returned", "after the restarted server exited: goroutines left: %v", left)
 	}
 }
+
+// saysSomethingElse: error codes that name another condition than "cancelled"
+// (a cancellation error may bear any other code).
+var saysSomethingElse = map[int]bool{-32700: true, -32600: true, -32601: true, -32602: true, -32603: true, -32098: true, -32096: true, 0: true}
